@@ -227,6 +227,29 @@ pub fn check(case: &Case) -> Verdict {
         return pass("cross-unit-extreme", true);
     };
     let margin = if e1.cmp(&e2).is_gt() { e1 } else { e2 }.mul(&Rat::from_u64(2));
+    // f64, tighter: measured with the scales the units *report* (C07 pins
+    // those to the table), one conversion rounds twice - the unit ratio and
+    // the product -, i.e. 2 u relative; beyond 3 u the answers must follow
+    // the exact order.  (Both magnitudes are inside 2^+-960 here.)
+    #[cfg(not(feature = "dec"))]
+    {
+        let rv = t.r.as_ref().unwrap();
+        if let (Some(fa), Some(fb)) = (amt::to_rat((rv.scale)(case.ua)), amt::to_rat((rv.scale)(case.ub))) {
+            let (na, nb) = (ra.mul(&fa), rb.mul(&fb));
+            let big = if na.abs().cmp(&nb.abs()).is_gt() { na.abs() } else { nb.abs() };
+            let tight = big.mul(&Rat::from_u64(3)).mul_pow2(-53);
+            let d = na.sub(&nb).abs();
+            if !big.is_zero() && d.cmp(&tight).is_gt() {
+                let want = na.cmp(&nb);
+                if pc_ab != Some(want) || eq_ab {
+                    fail!(
+                        "{}: {}: magnitudes (by the reported scales) {} vs {} differ by more than the two roundings of one conversion, exact order {:?}, but partial_cmp = {:?}, == is {}",
+                        tname, case.note, na.describe(), nb.describe(), want, pc_ab, eq_ab
+                    );
+                }
+            }
+        }
+    }
     let diff = ma.sub(&mb).abs();
     let near = diff.cmp(&margin.mul(&Rat::from_u64(4))).is_le();
     if diff.cmp(&margin).is_gt() {
